@@ -20,10 +20,13 @@ QUseSeqs == UseSeqsUpTo(2)
 TUseSeqs == UseSeqsUpTo(3)
 (* repeated imports: the last occurrence of a type import decides *)
 Q2UseSeqs == [1..3 -> {<<"ty", "a">>, <<"ty", "b">>, <<"mod", "a">>}]
+             (* "gen": an import of another instantiation, `use b::X<Q>`: it names nothing that exists and, above all, *)
+             (* it is not an import of `X` (names are compared whole, generic arguments included)                      *)
+             \cup {<< <<"gen", "b">> >>, << <<"gen", "b">>, <<"mod", "b">> >>, << <<"ty", "a">>, <<"gen", "b">> >>, << <<"gen", "a">>, <<"ty", "b">> >>}
 NoPerts == {"none"}
 OrderPerts == {"none", "mmid", "mlast"}
 AllDefSets == SUBSET {"m", "a", "b", "n"}
-QPerts == {"none", "addtype", "addvft", "othername", "addmod", "addfirst", "shadowown", "enclosing", "shadowmod", "rawtwin", "dotdir",
+QPerts == {"none", "addtype", "addvft", "othername", "addmod", "addfirst", "shadowown", "enclosing", "shadowmod", "rawtwin", "dotdir", "nestedlike",
            "mmid", "mlast"}   \* the same modules, m added after a (and before b) / last
 
 (* where the name may be defined, and the size it has there *)
@@ -35,7 +38,9 @@ DefOf(name, pl) ==
   TypeDef(name, "pub", <<Field("v", "pub", <<>>, TArr(TNm("u8"), PlaceSize(pl)), None, FALSE)>>)
 
 (* a use entry: <<kind, place>>, kind "ty" imports the type by name, "mod" the module *)
-UsePath(name, u) == IF u[1] = "ty" THEN Append(PlacePath(u[2]), name) ELSE PlacePath(u[2])
+UsePath(name, u) == IF u[1] = "ty" THEN Append(PlacePath(u[2]), name)
+                    ELSE IF u[1] = "gen" THEN Append(PlacePath(u[2]), name \o "<Q>")
+                    ELSE PlacePath(u[2])
 
 Unrelated == TypeDef("Zed", "pub", <<Field("v", "pub", <<>>, TNm("u64"), None, FALSE)>>)
 UnrelatedV == [TypeDef("Zed", "pub", <<Field("w", "pub", <<>>, TCPtr(TNm("u8")), None, FALSE)>>)
@@ -84,12 +89,15 @@ MkInput(ptr, name, defs, uses, pert, en) ==
       mz == Module(<<"zz">>, <<<<"a">>>>, <<DefOf(name, "b"), Unrelated, ZP, ZDia>>)
       mraw == Module(<<"r#m">>, <<>>, <<Unrelated>>)
       mdot == Module(<<"a.x", "n">>, <<<<"b">>>>, <<Unrelated>>)
+      (* a module nested in m that is named like m's type R: R (its fields, its impl block) still belongs to m *)
+      mnest == Module(<<"m", "R">>, <<>>, <<Unrelated>>)
       base == <<mm, ma, mb, mn>>
   IN [ptr |-> ptr, gen |-> [ptr |-> ptr, name |-> name, defs |-> defs, uses |-> uses, en |-> en],
       mods |-> CASE pert = "addmod" -> base \o <<mz>>
                  [] pert = "addfirst" -> <<mz>> \o base
                  [] pert = "rawtwin" -> base \o <<mraw>>
                  [] pert = "dotdir" -> <<mdot>> \o base
+                 [] pert = "nestedlike" -> base \o <<mnest>>
                  [] pert = "mmid" -> <<ma, mm, mb, mn>>
                  [] pert = "mlast" -> <<ma, mb, mn, mm>>
                  [] OTHER -> base]
